@@ -34,6 +34,7 @@ struct Interpose {
     std::map<int, FdState> fds;
     std::set<int> owned;                  // descriptors returned by accept4 and not yet closed
     long closeUnowned = 0, doubleClose = 0, accepts = 0, closesOwned = 0;
+    std::atomic<long> closeBadf{0}; std::atomic<int> closeBadfFd{-1};   // close() calls that the kernel answered EBADF: the descriptor was closed already (or never open)
     std::atomic<long> clock{0};
     std::atomic<bool> enabled{false};
     std::atomic<bool> trackOwnership{false};
@@ -163,7 +164,9 @@ int close(int fd) {
         if (it != I.owned.end()) { I.owned.erase(it); I.closesOwned++; }
         I.fds.erase(fd);
     } else if (I.capAccepted.load(std::memory_order_relaxed)) { std::lock_guard<std::mutex> g(I.m); I.fds.erase(fd); }
-    return real(fd);
+    int rc = real(fd);
+    if (rc == -1 && errno == EBADF && fd >= 0) { I.closeBadf++; I.closeBadfFd = fd; errno = EBADF; }
+    return rc;
 }
 }
 #endif
